@@ -651,6 +651,216 @@ def describe(program, cfg, seed, latency):
             "replay": "cd /verif/harness && /venv/bin/python schedtrace.py '<this case as JSON>'"}
 
 
+# ------------------------------------------------------------------------------------------------------
+# scripted DAG runs: the REAL async_map_dag (+ async_map_unordered, aiostream) on a virtual-time loop
+# ------------------------------------------------------------------------------------------------------
+# A case is  {"ops": [{"n": tasks, "preds": [producer op indices]}, …], "script": {"op:input:attempt": [ok, duration]},
+#             "parallel": bool, "use_backups": bool, "batch_size": int|None}.
+# Every submission (op, input, attempt) "executes" from its submission for `duration` virtual seconds whether or not its
+# future is cancelled in between (a running thread / process cannot be cancelled) and then succeeds (= its chunk is
+# written) or fails.  Unscripted submissions succeed after 1 s.  This is how backups, failing twins and stragglers are
+# put under the scheduler deterministically.
+
+class _OpFn:
+    def __init__(self, op):
+        self.op = op
+
+    def __call__(self, *a, **k):  # never called: the scripted futures stand in for the execution
+        raise AssertionError("scripted op function must not be called")
+
+
+def scripted_dag(case):
+    import networkx as nx
+
+    from cubed.runtime.types import CubedPipeline
+    dag = nx.MultiDiGraph()
+    fns = []
+    for i, op in enumerate(case["ops"]):
+        fn = _OpFn(i)
+        fns.append(fn)
+        dag.add_node("op-%d" % i, name="op-%d" % i, type="op", op_name="scripted",
+                     pipeline=CubedPipeline(fn, "scripted-%d" % i, list(range(op["n"])), None))
+        dag.add_node("arr-%d" % i, name="arr-%d" % i, type="array", target=None)
+        dag.add_edge("op-%d" % i, "arr-%d" % i)
+    for i, op in enumerate(case["ops"]):
+        for p in op["preds"]:
+            dag.add_edge("arr-%d" % p, "op-%d" % i)
+    return dag
+
+
+def run_scripted_dag(case):
+    """-> dict(outcome 'done'|'raised'|'crash', detail, seq: ordered observations, subs: submissions, facts)
+    observations: ("E", kind, op, input|None, t) callback events, ("sub", op, input, attempt, t), ("fin", op, input, attempt, ok, first_success, t)"""
+    import asyncio
+    import contextlib
+    import io
+
+    from vloop import ScriptError, VClock, VirtualLoop
+
+    import cubed.runtime.asyncio as cra
+    from cubed.runtime.types import Callback
+
+    dag = scripted_dag(case)
+    script = {tuple(int(x) for x in k.split(":")): (bool(v[0]), int(v[1])) for k, v in case.get("script", {}).items()}
+    loop = VirtualLoop()
+    seq, subs, futs = [], [], []
+    attempts, written = {}, set()
+
+    def create_futures_func(inputs, **kwargs):
+        op = kwargs["func"].op
+        out = []
+        for i in inputs:
+            k = attempts.get((op, i), 0)
+            attempts[(op, i)] = k + 1
+            ok, dur = script.get((op, i, k), (True, 1))
+            fut = loop.create_future()
+            futs.append(fut)
+            t0 = loop.time()
+            subs.append({"op": op, "input": i, "attempt": k, "t0": t0, "t1": t0 + dur, "ok": ok})
+            seq.append(("sub", op, i, k, t0))
+
+            def fire(fut=fut, op=op, i=i, k=k, ok=ok):
+                first = ok and (op, i) not in written
+                if ok:
+                    written.add((op, i))
+                seq.append(("fin", op, i, k, ok, first, loop.time()))
+                if fut.done():      # cancelled meanwhile; the execution itself ran to its end
+                    return
+                if ok:
+                    fut.set_result((("res", op, i, k), {}))
+                else:
+                    fut.set_exception(ScriptError(k, i))
+
+            loop.call_at(t0 + dur, fire)
+            out.append((i, fut))
+        return out
+
+    class Rec(Callback):
+        def on_operation_start(self, event):
+            seq.append(("E", "opStart", int(event.name[3:]), None, loop.time()))
+
+        def on_operation_end(self, event):
+            seq.append(("E", "opEnd", int(event.name[3:]), None, loop.time()))
+
+        def on_task_end(self, event):
+            seq.append(("E", "taskEnd", int(event.name[3:]), event.result[2], loop.time()))
+
+    res = {"outcome": None, "detail": None}
+    kw = {"use_backups": bool(case.get("use_backups", False))}
+    if case.get("batch_size") is not None:
+        kw["batch_size"] = case["batch_size"]
+    old_time = cra.time
+    cra.time = VClock(loop)
+    try:
+        with contextlib.redirect_stdout(io.StringIO()):
+            try:
+                loop.run_until_complete(asyncio.wait_for(
+                    cra.async_map_dag(create_futures_func, dag=dag, callbacks=[Rec()],
+                                      compute_arrays_in_parallel=bool(case.get("parallel", False)), **kw),
+                    timeout=10_000_000))
+                res["outcome"] = "done"
+            except ScriptError as e:
+                res["outcome"] = "raised"
+                res["detail"] = {"input": e.inp, "attempt": e.sub}
+            except BaseException as e:
+                res["outcome"] = "crash"
+                res["detail"] = ("%s: %s" % (type(e).__name__, e))[:200]
+        res["end_time"] = loop.time()
+        # let abandoned executions run to their scripted end (they still write their chunks)
+        with contextlib.redirect_stdout(io.StringIO()):
+            try:
+                horizon = max([s_["t1"] for s_ in subs], default=0) + 1
+                loop.run_until_complete(asyncio.sleep(max(0, horizon - loop.time())))
+            except BaseException:
+                pass
+    finally:
+        cra.time = old_time
+        try:
+            for f in futs:
+                if not f.done():
+                    f.cancel()
+                elif not f.cancelled():
+                    f.exception()
+            loop.run_until_complete(asyncio.sleep(0))
+        except Exception:
+            pass
+        loop.close()
+    res["seq"] = seq
+    res["subs"] = subs
+    res["facts"] = dag_facts(dag)
+    return res
+
+
+def scripted_tokens(res):
+    """Observation tokens for the Lean acceptor: callback events, w<arr> when an input's first successful execution ends
+    (its chunk gets its final value), r<arr> when a task that reads arr is submitted."""
+    f = res["facts"]
+    idx = f["idx"]
+    toks = ["cs"]
+    ops = len(f["names"]) // 2
+    preds = {o: [u for u, v in f["edges"] if v == idx["op-%d" % o]] for o in range(ops)}
+    for ob in res["seq"]:
+        if ob[0] == "E":
+            toks.append({"opStart": "os", "taskEnd": "te", "opEnd": "oe"}[ob[1]] + str(idx["op-%d" % ob[2]]))
+        elif ob[0] == "sub":
+            for a in preds[ob[1]]:
+                toks.append("r%d" % a)
+        elif ob[0] == "fin" and ob[5]:
+            toks.append("w%d" % idx["arr-%d" % ob[1]])
+    toks.append("ce")
+    return toks
+
+
+def scripted_violations(case, res):
+    """C07 on a scripted run, directly: every input of an op yields exactly once; an op (generation) is closed, and a
+    consumer task is submitted, only after every input of every producer has completed a successful execution."""
+    out = []
+    if res["outcome"] == "crash":
+        return ["the executor crashed or hung: %s" % res["detail"]]
+    first_ok = {}
+    for s_ in res["subs"]:
+        if s_["ok"]:
+            k = (s_["op"], s_["input"])
+            first_ok[k] = min(first_ok.get(k, s_["t1"]), s_["t1"])
+    if res["outcome"] == "raised":
+        # an error may surface only for an input none of whose submitted copies succeeds
+        bad = [(s_["op"], s_["input"]) for s_ in res["subs"]
+               if not s_["ok"] and s_["input"] == res["detail"]["input"] and (s_["op"], s_["input"]) not in first_ok]
+        if not bad:
+            out.append("an error was raised for input %s although a submitted copy of it succeeds" % res["detail"]["input"])
+        return out
+    ops = case["ops"]
+    yielded = {}
+    ends = {}
+    for ob in res["seq"]:
+        if ob[0] == "E" and ob[1] == "taskEnd":
+            yielded.setdefault(ob[2], []).append(ob[3])
+        if ob[0] == "E" and ob[1] == "opEnd":
+            ends[ob[2]] = ob[4]
+    for o, op in enumerate(ops):
+        got = sorted(yielded.get(o, []))
+        if got != list(range(op["n"])):
+            missing = sorted(set(range(op["n"])) - set(got))
+            dup = sorted({i for i in got if got.count(i) > 1})
+            out.append("op-%d: %d inputs, task-end notifications for %d (missing %s, repeated %s)" % (o, op["n"], len(got), missing, dup))
+        for i in range(op["n"]):
+            t = first_ok.get((o, i))
+            if o in ends and (t is None or t > ends[o]):
+                out.append("op-%d was closed at t=%s but its input %d %s" % (
+                    o, ends[o], i, "never completed successfully" if t is None else "finished writing only at t=%s" % t))
+                break
+    for s_ in res["subs"]:
+        for p in ops[s_["op"]]["preds"]:
+            for i in range(ops[p]["n"]):
+                t = first_ok.get((p, i))
+                if t is None or t > s_["t0"]:
+                    out.append("a task of op-%d (input %d) was submitted at t=%s while input %d of its producer op-%d %s"
+                               % (s_["op"], s_["input"], s_["t0"], i, p,
+                                  "never completes" if t is None else "is still being written until t=%s" % t))
+                    return out
+    return out
+
+
 if __name__ == "__main__":
     import json
     import sys
